@@ -14,6 +14,9 @@ CONFIGS = {
     "K5": dict(Keys={1, 2, 3}, Nodes={1}, Times={0, 3}, MaxReqs=2),
     "K6": dict(Keys={1, 2, 3}, Nodes={1}, Times={0, 1, 3}, MaxReqs=2),
     # single requests only, stamps far apart, up to 5 requests: purges that really remove tombstones, with storage failures
+    # put_many / del_many shapes (several keys, one stamp) over four keys: purges of three and more tombstones with
+    # partial storage failures
+    "K8": dict(Keys={1, 2, 3, 4}, Nodes={1}, Times={0, 3, 4}, MaxReqs=4, WithBulk=False, WithUniform=True, WithCrash=False),
     "K7": dict(Keys={1, 2}, Nodes={1}, Times={0, 3, 4}, MaxReqs=5, WithBulk=False, WithCrash=False),
 }
 TIERS = {"quick": ["K1", "K3", "K5", "K7"], "thorough": ["K1", "K2", "K3", "K4", "K5", "K6", "K7"]}
@@ -23,7 +26,7 @@ PROPERTIES = ["C07_RebuildExact"]
 
 def _one(ctx, binary, name):
     c = CONFIGS[name]
-    consts = dict(dict(Sources={0, 1}, F=2, FixD6=True, SortBulk=True, WithCrash=True, WithBulk=True), **c)
+    consts = dict(dict(Sources={0, 1}, F=2, FixD6=True, SortBulk=True, WithCrash=True, WithBulk=True, WithUniform=False), **c)
     mc_cfg = vlib.cfg_text(constants=dict(consts, EmitEdges=False), invariants=INVARIANTS, properties=PROPERTIES, view="MCView")
     mc, text = vlib.run_tlc(ctx, "Keyspace", mc_cfg, "mc_" + name, workers=5, extra=["-coverage", "1"], timeout=2400)
     mc_ok = vlib.require_clean_mc(ctx, mc, text, "Keyspace/" + name)
